@@ -47,6 +47,19 @@ static void check_prefix(const Seed& s, size_t n, int stream_kind, std::vector<V
     if (lf.blocks.size() != expect_blocks) { out.push_back({std::string(lf.blocks.size() > expect_blocks ? "fabricated-block|" : "missing-block|") + rel, where + ": reader returned " + std::to_string(lf.blocks.size()) + " blocks, " + std::to_string(expect_blocks) + " are wholly contained; end=" + lf.end}); return; }
     for (size_t i = 0; i < expect_blocks; i++) if (lf.blocks[i] != s.lib_blocks[i]) { out.push_back({"block-differs|" + rel, where + ": block " + std::to_string(i) + " differs from the same block of the full file"}); return; }
     if (lf.end.rfind("end:", 0) != 0) out.push_back({(lf.end == "eof" ? "eof-on-truncated-input|" : "wrong-error-kind|") + rel, where + ": after the complete blocks expected CdnsDecoderEnd, got " + lf.end});
+    // the end of input is sticky: asking again (a retry loop, a caller that ignores the first error) must fail the same way, never report a clean end or a block
+    if (stream_kind == 0) {
+        std::istringstream is(pre);
+        try {
+            CDNS::CdnsReader r(is); bool eof = false; size_t got = 0; int ends = 0;
+            for (size_t call = 0; call < s.rf.blocks.size() + 4; call++) {
+                try { CDNS::CdnsBlockRead b = r.read_block(eof); if (eof) { out.push_back({"end-not-sticky|clean-eof|" + rel, where + ": read_block call #" + std::to_string(call + 1) + " reported a clean end of file (eof = true) on a truncated file after " + std::to_string(ends) + " end-of-input errors"}); break; } got++;
+                      if (got > expect_blocks) { out.push_back({"end-not-sticky|extra-block|" + rel, where + ": read_block returned block #" + std::to_string(got) + " although only " + std::to_string(expect_blocks) + " are complete"}); break; } }
+                catch (CDNS::CdnsDecoderEnd&) { ends++; }
+                catch (std::exception& e) { if (ends > 0) { out.push_back({"end-not-sticky|other-error|" + rel, where + ": after an end-of-input error the next read_block failed differently: " + e.what()}); } break; }
+            }
+        } catch (std::exception&) {}
+    }
 }
 
 // flat streams: n one-byte items; every op must return exactly n values, then CdnsDecoderEnd
@@ -235,6 +248,8 @@ int main(int argc, char** argv) {
         seeds.push_back(mk_seed("mid", seeds::mid()));
         seeds.push_back(mk_seed("big", seeds::big()));
         for (size_t k = 1; k <= 3; k++) seeds.push_back(mk_seed("exact" + std::to_string(k), seeds::exact(k * W)));
+        // the same data with a definite-length array of blocks (valid RFC 8618, other writers produce it): the reader counts blocks instead of waiting for the break
+        for (const char* base : {"small", "mid"}) { Node root = parse_exact(std::string(base) == "small" ? seeds::small() : seeds::mid()); root.kids[2].indef = false; seeds.push_back(mk_seed(std::string(base) + "-definite", encode(root))); }
         // files whose first block end falls on / one before / one after a window boundary
         { std::string base = seeds::exact(W + 200, 2); RFile r = read_file(base); long d = (long)r.blocks[0].end - (long)W; for (int delta : {-1, 0, 1}) seeds.push_back(mk_seed("blockend" + std::to_string(delta), seeds::exact(W + 200 - d + delta, 2))); }
         for (auto& s : seeds) if (s.name.rfind("exact", 0) == 0 && s.bytes.size() % W != 0) { fprintf(stderr, "seed %s has size %zu\n", s.name.c_str(), s.bytes.size()); return done(2); }
